@@ -552,6 +552,34 @@ def run(tier, seed, replay):
                 except Exception as e:
                     if type(e).__name__ != "IntegratorException":
                         v(f"raises:final-state-after-step:{method}", f"{type(e).__name__}: {e}"[:200], {"method": method})
+        if si == 0:
+            # generators that cannot be diagonalised (a cascade with equal decay rates, collective decay): every method
+            # either gives exp(Lt) rho0 or declines - no method returns anything else
+            casc = [np.sqrt(0.7) * qutip.basis(3, 1) * qutip.basis(3, 2).dag(), np.sqrt(0.7) * qutip.basis(3, 0) * qutip.basis(3, 1).dag()]
+            defective = {"three-level cascade with equal rates": (qutip.qzero(3), casc, qutip.fock_dm(3, 2)),
+                         "spin 1 with J-": (qutip.jmat(1, "z"), [qutip.jmat(1, "-")], qutip.fock_dm(3, 0))}
+            for dname, (Hd_, cd_, rd_) in defective.items():
+                Ld_ = qutip.liouvillian(Hd_, cd_).full()
+                td_ = [0.0, 0.5, 1.3]
+                wantd_ = [(sla.expm(Ld_ * t_) @ rd_.full().reshape(-1, order="F")).reshape(3, 3, order="F") for t_ in td_]
+                for method in me_methods:
+                    try:
+                        with warnings.catch_warnings():
+                            warnings.simplefilter("ignore")
+                            with core.time_limit(120):
+                                gd_ = qutip.mesolve(Hd_, rd_, td_, cd_, options={"method": method, "progress_bar": "", "store_states": True}).states
+                        rep.evaluations += 1
+                        rep.count("defective-generator/" + method)
+                        ed_ = max(np.abs(a.full() - w_).max() for a, w_ in zip(gd_, wantd_))
+                        if not ed_ < 1e-4:
+                            v(f"defective-generator:{method}", f"mesolve({method}) for a generator that cannot be diagonalised ({dname}) differs from exp(Lt) rho0 by {ed_:.2e}", {"system": dname, "method": method})
+                    except core.CaseTimeout:
+                        raise
+                    except Exception as e:
+                        if type(e).__name__ != "IntegratorException":
+                            v(f"raises:defective-generator:{method}", f"{dname}: {type(e).__name__}: {e}"[:200], {"method": method})
+                        else:
+                            rep.count("defective-generator-declined/" + method)
         # Krylov: a Hamiltonian whose Krylov space closes after exactly krylov_dim vectors (rank-one H, krylov_dim = 2):
         # the projected evolution is exact, nothing has to be refused
         if si == 0:
